@@ -857,6 +857,16 @@ func (c *Conn) ReadBatchWith(cfg ReadBatchConfig) *Batch {
 	default:
 		throttle, highWaterMark, remain, err = readFetchResponseHeaderV2(&c.rbuf, size)
 	}
+
+	var kafkaError Error
+	if errors.As(err, &kafkaError) {
+		// The broker reported an error code, the header parsers stopped
+		// before the end of the response. Discard the rest so the connection
+		// can be used for the next request.
+		if _, discardErr := discardN(&c.rbuf, remain, remain); discardErr != nil {
+			err = discardErr
+		}
+	}
 	if errors.Is(err, errShortRead) {
 		err = checkTimeoutErr(adjustedDeadline)
 	}
@@ -1215,7 +1225,7 @@ func (c *Conn) writeCompressedMessages(codec CompressionCodec, msgs ...Message) 
 			}
 		},
 		func(deadline time.Time, size int) error {
-			return expectZeroSize(readArrayWith(&c.rbuf, size, func(r *bufio.Reader, size int) (int, error) {
+			size, err := readArrayWith(&c.rbuf, size, func(r *bufio.Reader, size int) (int, error) {
 				// Skip the topic, we've produced the message to only one topic,
 				// no need to waste resources loading it in memory.
 				size, err := discardString(r, size)
@@ -1261,7 +1271,18 @@ func (c *Conn) writeCompressedMessages(codec CompressionCodec, msgs ...Message) 
 				// The response is trailed by the throttle time, also skipping
 				// since it's not interesting here.
 				return discardInt32(r, size)
-			}))
+			})
+			var kafkaError Error
+			if errors.As(err, &kafkaError) {
+				// The broker reported an error code, discard the rest of the
+				// response (the throttle time) so the connection can be used
+				// for the next request.
+				if _, discardErr := discardN(&c.rbuf, size, size); discardErr != nil {
+					return discardErr
+				}
+				return err
+			}
+			return expectZeroSize(size, err)
 		},
 	)
 
